@@ -196,6 +196,16 @@ def load_known():
     return known
 
 
+def _limit_memory():
+    """wall / RSS caps live inside the engine: a shard that tries to grow beyond the cap fails as machinery, it does not take the host down"""
+    try:
+        import resource
+        cap = int(os.environ.get("VERIF_SHARD_MEM_GB", "10")) << 30
+        resource.setrlimit(resource.RLIMIT_AS, (cap, cap))
+    except Exception:
+        pass
+
+
 def _worker(job):
     modname, fname, arg, tier = job
     try:
@@ -244,7 +254,7 @@ def run_property(pid, tier, jobs=None):
             results = map(_worker, joblist)
         else:
             ctx = multiprocessing.get_context("fork")
-            pool = ctx.Pool(min(nproc, len(joblist)))
+            pool = ctx.Pool(min(nproc, len(joblist)), initializer=_limit_memory)
             results = pool.imap_unordered(_worker, joblist, chunksize=1)
         for kind, val in results:
             if kind == "ok":
